@@ -64,183 +64,11 @@ def rule_inputmut(P) -> RuleResult:
 # ----------------------------------------------------------------------
 # R-ONCEPERROW (C12)
 
-def rule_onceperrow(P) -> RuleResult:
-    res = RuleResult('R-ONCEPERROW')
-    reg = registry.get(P)
-    m = P.module(QE)
-    RID = finite.Sym('RID')
-    found = 0
-    for fq, cols in reg.tables.items():
-        for name, c in cols.items():
-            if c.kind != 'func':
-                continue
-            fi = c.impl
-            ctx = fi.params[0]
-            # does the accessor mutate its row context?
-            muts = []
-            for n in ast.walk(fi.node):
-                if isinstance(n, ast.Call) and isinstance(n.func, ast.Attribute) and n.func.attr in effects.MUTATORS:
-                    root = n.func.value
-                    while isinstance(root, (ast.Attribute, ast.Subscript)):
-                        root = root.value
-                    if isinstance(root, ast.Name) and root.id == ctx:
-                        muts.append(n)
-            if not muts:
-                continue
-            if (fi.fq, 'done') in getattr(res, '_seen', set()):
-                continue
-            res._seen = getattr(res, '_seen', set()) | {(fi.fq, 'done')}
-            found += 1
-            construct = f'column:{reg.table_info[fq].name}.{name}'
-            n0 = len(res.findings)
-            # no process-wide memo
-            for d in fi.node.decorator_list:
-                e = d.func if isinstance(d, ast.Call) else d
-                if fi.module.dotted(e) in effects.MEMO_DECORATORS:
-                    res.fail(construct, 'onceperrow:memo',
-                             f'{name} updates the running state of its row context and relies on `@{unparse(d)}` to do so only once per '
-                             f'row: the cache is shared by every scan in the process, so another evaluation of the column between two '
-                             f'references in one row (a subquery, another thread) evicts the entry and the row is counted twice', loc(fi))
-            # the guard lives in the row context and is keyed by the row id: execute over the guard states
-            guard_attrs = set()
-            for n in ast.walk(fi.node):
-                if isinstance(n, ast.Compare) and len(n.ops) == 1:
-                    sides = [unparse(n.left), unparse(n.comparators[0])]
-                    if f'{ctx}.rowid' in sides:
-                        other = [s for s in sides if s != f'{ctx}.rowid']
-                        if other and other[0].startswith(f'{ctx}.'):
-                            guard_attrs.add(other[0][len(ctx) + 1:])
-            if not guard_attrs and len(res.findings) == n0:
-                res.fail(construct, 'onceperrow:unguarded',
-                         f'{name} updates the running state of its row context on every evaluation: referenced twice in one row it '
-                         f'counts the row twice (no per-row guard keyed by {ctx}.rowid)', loc(fi))
-            for ga in sorted(guard_attrs):
-                for state, want_mut in ((None, True), (finite.Sym('OLD'), True), (RID, False)):
-                    attrs = {ga: state, 'rowid': RID}
-
-                    class M(finite.Machine):
-                        def stmt(self, s, st):
-                            if isinstance(s, ast.Assign) and len(s.targets) == 1 and isinstance(s.targets[0], ast.Attribute) \
-                                    and unparse(s.targets[0].value) == ctx:
-                                attrs[s.targets[0].attr] = self.ev(s.value, st)
-                                return st
-                            return super().stmt(s, st)
-                    mach = M(expr=lambda e, st, mm: attrs.get(e.attr, finite.Sym(unparse(e))) if isinstance(e, ast.Attribute) and unparse(e.value) == ctx
-                             else finite.Sym(unparse(e)) if isinstance(e, ast.Attribute) else NotImplemented,
-                             call=lambda e, st, mm: (mm.events.append(('mutate', unparse(e.func))) or finite.Sym('R'))
-                             if isinstance(e.func, ast.Attribute) and e.func.attr in effects.MUTATORS else finite.Sym(unparse(e)),
-                             names={ctx: finite.Sym(ctx)})
-                    try:
-                        mach.run(body_without_docstring(fi.node), {})
-                    except finite.Return:
-                        pass
-                    did = any(e[0] == 'mutate' for e in mach.events)
-                    if did != want_mut:
-                        res.fail(construct, f'onceperrow:guard:{ga}',
-                                 f'{name}: with {ctx}.{ga} {"equal to" if state is RID else "different from"} the current row id the '
-                                 f'running state is {"updated" if did else "not updated"}; it must be updated exactly on the first '
-                                 f'evaluation for a row', loc(fi))
-                    elif want_mut and attrs.get(ga) != RID:
-                        res.fail(construct, f'onceperrow:mark:{ga}',
-                                 f'{name} updates the running state but does not record the row id in {ctx}.{ga}: the next reference '
-                                 f'in the same row updates it again', loc(fi))
-                # the guard attribute is per scan: declared on the row context class
-                row = m.classes.get('Row')
-                if row is not None and ga not in row.attrs and f'self.{ga}' not in unparse(row.node):
-                    res.fail(construct, f'onceperrow:decl:{ga}', f'{ctx}.{ga} is never initialised on the row context', loc(fi))
-            # returns a copy of the running value
-            rets = [n for n in ast.walk(fi.node) if isinstance(n, ast.Return) and n.value is not None]
-            for r in rets:
-                if isinstance(r.value, ast.Attribute) and unparse(r.value).startswith(ctx + '.'):
-                    res.fail(construct, 'onceperrow:alias',
-                             f'{name} returns the running object itself (`{unparse(r.value)}`): it is stored in result rows and keeps '
-                             f'changing as the scan goes on; a copy must be returned', loc(fi, r))
-            if len(res.findings) == n0:
-                res.ok({'column': name, 'guard': sorted(guard_attrs), 'states_executed': 3, 'returns': 'copy'})
-    if found == 0:
-        raise AnalysisError('anchor vanished: no column accessor updates its row context (the running balance)')
-    # rowid is bumped once per row by the row generators
-    for tname in ('EntriesTable', 'PostingsTable'):
-        ci = m.classes.get(tname)
-        it = ci.methods.get('__iter__') if ci else None
-        if it is None:
-            raise AnalysisError(f'anchor vanished: {tname}.__iter__')
-        ys = [n for n in ast.walk(it.node) if isinstance(n, (ast.Yield,))]
-        incs = [n for n in ast.walk(it.node) if isinstance(n, ast.AugAssign) and unparse(n.target).endswith('.rowid')]
-        if len(ys) != 1 or len(incs) != 1:
-            res.fail(it.fq, 'onceperrow:rowid', f'{tname}.__iter__ must bump the row id exactly once per yielded row', loc(it))
-            continue
-        # same innermost loop
-        loops = [n for n in ast.walk(it.node) if isinstance(n, ast.For)]
-        inner_y = [l for l in loops if any(x is ys[0] for x in ast.walk(l))]
-        inner_i = [l for l in loops if any(x is incs[0] for x in ast.walk(l))]
-        if not inner_y or inner_y[-1] is not (inner_i[-1] if inner_i else None):
-            res.fail(it.fq, 'onceperrow:rowid', f'{tname}.__iter__: the row id is not bumped in the loop that yields the rows '
-                     f'(two rows would share an id and the second would not be added to the balance)', loc(it))
-        else:
-            res.ok({'generator': it.fq, 'rowid': 'bumped once per yielded row'})
-    return res
 
 
 # ----------------------------------------------------------------------
 # R-REENTRANT (C08)
 
-def rule_reentrant(P) -> RuleResult:
-    """Compiler state written while compiling a (nested) SELECT is restored for the enclosing one."""
-    res = RuleResult('R-REENTRANT')
-    comp = P.cls(CO, 'Compiler')
-    # attributes of the compiler written by methods other than __init__/compile
-    written = {}
-    for name, fi in comp.methods.items():
-        if name in ('__init__', 'compile'):
-            continue
-        for n in ast.walk(fi.node):
-            if isinstance(n, ast.Assign):
-                for t in n.targets:
-                    if isinstance(t, ast.Attribute) and isinstance(t.value, ast.Name) and t.value.id == 'self':
-                        written.setdefault(t.attr, []).append((fi, n))
-    # the registered handler for Select
-    sel = None
-    for name, fi in comp.methods.items():
-        ann = fi.node.args.args[1].annotation if len(fi.node.args.args) > 1 else None
-        if ann is not None and unparse(ann) == 'ast.Select' and any('register' in unparse(d) for d in fi.node.decorator_list):
-            sel = fi
-    if sel is None:
-        raise AnalysisError('anchor vanished: the _compile handler registered for ast.Select')
-    if not written:
-        res.ok({'compiler_state_written_during_compilation': []})
-        return res
-    for attr, sites in sorted(written.items()):
-        construct = f'{comp.fq}.{attr}'
-        # a scope-owning save/restore in the Select handler: saved on entry, restored in a finally (or on every exit)
-        saves = [n for n in sel.node.body if isinstance(n, ast.Assign) and unparse(n.value) == f'self.{attr}'
-                 and isinstance(n.targets[0], ast.Name)]
-        restored = False
-        if saves:
-            sv = saves[0].targets[0].id
-            for n in ast.walk(sel.node):
-                if isinstance(n, ast.Try) and n.finalbody:
-                    for s in n.finalbody:
-                        if isinstance(s, ast.Assign) and unparse(s.targets[0]) == f'self.{attr}' and unparse(s.value) == sv:
-                            # everything that compiles sits inside the try
-                            restored = True
-            if restored:
-                idx = sel.node.body.index(saves[0])
-                between = sel.node.body[idx + 1:]
-                if not (between and isinstance(between[0], ast.Try) and len(between) == 1):
-                    # statements after the try would run with the restored value: fine; statements before the try that compile: not
-                    pre = [s for s in between if not isinstance(s, ast.Try)]
-                    if any('self._compile' in unparse(s) for s in pre):
-                        restored = False
-        writers = sorted({fi.qualname for fi, _ in sites})
-        if restored:
-            res.ok({'attribute': f'self.{attr}', 'written_by': writers, 'scope_owner': sel.qualname, 'restore': 'try/finally'})
-        else:
-            res.fail(construct, f'reentrant:{attr}',
-                     f'`self.{attr}` is overwritten by {", ".join(writers)} while a SELECT is compiled, and SELECTs nest (subqueries '
-                     f'in expressions and FROM). {sel.qualname} does not save it on entry and restore it on every exit, so after a '
-                     f'nested SELECT the enclosing one resolves names against, and iterates over, the inner table', loc(sel))
-    return res
 
 
 # ----------------------------------------------------------------------
@@ -289,109 +117,16 @@ def rule_foldpure(P) -> RuleResult:
     return res
 
 
-def rule_placeholder(P) -> RuleResult:
-    res = RuleResult('R-PLACEHOLDER')
-    comp = P.cls(CO, 'Compiler')
-    c = comp.methods.get('compile')
-    ph = comp.methods.get('_placeholder')
-    if c is None or ph is None:
-        raise AnalysisError('anchor vanished: Compiler.compile / _placeholder')
-    src = unparse(c.node)
-    # positional placeholders numbered in textual order
-    enums = [n for n in ast.walk(c.node) if isinstance(n, ast.Call) and unparse(n.func) == 'enumerate']
-    ok = False
-    for e in enums:
-        a = e.args[0] if e.args else None
-        if isinstance(a, ast.Call) and unparse(a.func) == 'sorted' and any(k.arg == 'key' and 'parseinfo.pos' in unparse(k.value) for k in a.keywords):
-            if not any(k.arg == 'reverse' for k in a.keywords):
-                ok = True
-    if ok:
-        res.ok({'site': c.fq, 'numbering': 'enumerate(sorted(placeholders, key=position in the text))'})
-    else:
-        res.fail(c.fq, 'placeholder:order', 'positional parameters must bind in left-to-right textual order: number the placeholders '
-                 'by enumerate(sorted(..., key=parse position))', loc(c))
-    psrc = unparse(ph.node)
-    if 'self.parameters[' not in psrc:
-        res.fail(ph.fq, 'placeholder:lookup', 'a placeholder must evaluate to the parameter it names', loc(ph))
-    else:
-        res.ok({'site': ph.fq, 'value': 'self.parameters[key]'})
-    # the numbering is read by _placeholder from where compile stored it
-    stores = [unparse(n.targets[0]) for n in ast.walk(c.node) if isinstance(n, ast.Assign) and unparse(n.targets[0]).startswith('self.')]
-    used = [s for s in stores if s in psrc and s != 'self.parameters']
-    if not used and 'node.name' in psrc and '.name = ' not in src:
-        res.fail(ph.fq, 'placeholder:numbering', 'the positional numbering computed by compile() is not used by _placeholder()', loc(ph))
-    elif used:
-        res.ok({'numbering_store': used})
-    return res
 
 
 # ----------------------------------------------------------------------
 # R-TABLECOPY (C13, C20)
 
-def rule_tablecopy(P) -> RuleResult:
-    res = RuleResult('R-TABLECOPY')
-    m = P.module(QE)
-    bt = m.classes.get('BeanTable')
-    upd = bt.methods.get('update') if bt else None
-    if upd is None:
-        raise AnalysisError('anchor vanished: BeanTable.update')
-    src = unparse(upd.node)
-    copies = [n for n in ast.walk(upd.node) if isinstance(n, ast.Assign) and isinstance(n.value, ast.Call)
-              and upd.module.dotted(n.value.func) in ('copy.copy', 'copy.deepcopy') and [unparse(a) for a in n.value.args] == ['self']]
-    rets = [n for n in ast.walk(upd.node) if isinstance(n, ast.Return)]
-    if len(copies) == 1 and len(rets) == 1 and unparse(rets[0].value) == unparse(copies[0].targets[0]):
-        cv = unparse(copies[0].targets[0])
-        bad = [n for n in ast.walk(upd.node) if (isinstance(n, ast.Call) and unparse(n.func) == 'setattr' and unparse(n.args[0]) != cv)
-               or (isinstance(n, ast.Assign) and unparse(n.targets[0]).startswith('self.'))]
-        if bad:
-            res.fail(upd.fq, 'tablecopy:self-write', 'BeanTable.update() modifies the table held by the connection instead of a copy', loc(upd))
-        else:
-            res.ok({'method': upd.fq, 'writes': f'only to {cv} = copy.copy(self)'})
-    else:
-        res.fail(upd.fq, 'tablecopy:nocopy', 'OPEN/CLOSE/CLEAR must be applied to a copy of the table: the table object belongs to '
-                 'the connection and is shared by all statements', loc(upd))
-    cf = P.func(CO, 'Compiler._compile_from')
-    if 'self.table = self.table.update(' not in unparse(cf.node):
-        res.fail(cf.fq, 'tablecopy:site', 'the FROM clause must replace the current table by its updated copy', loc(cf))
-    else:
-        res.ok({'site': cf.fq, 'table': 'self.table.update(open=, close=, clear=)'})
-    return res
 
 
 # ----------------------------------------------------------------------
 # R-SUBQ1D (C08): x IN (subquery) is membership in the subquery's single output column
 
-def rule_subq1d(P) -> RuleResult:
-    res = RuleResult('R-SUBQ1D')
-    ci = P.cls('beanquery.query_compile', 'EvalConstantSubquery1D')
-    call = ci.methods.get('__call__')
-    if call is None:
-        raise AnalysisError('anchor vanished: EvalConstantSubquery1D.__call__')
-    n0 = len(res.findings)
-    ex = [n for n in ast.walk(call.node) if isinstance(n, ast.Call) and unparse(n.func).endswith('execute_query')]
-    if len(ex) != 1 or [unparse(a) for a in ex[0].args] != ['self.subquery']:
-        res.fail(call.fq, 'subq1d:source', 'the IN-subquery value must be the result of executing that subquery', loc(call))
-    comps = [n for n in ast.walk(call.node) if isinstance(n, (ast.ListComp, ast.SetComp, ast.GeneratorExp))]
-    if len(comps) != 1:
-        raise AnalysisError(f'{call.fq}: construction of the membership list not understood')
-    c = comps[0]
-    g = c.generators[0]
-    if g.ifs:
-        res.fail(call.fq, 'subq1d:filtered', f'the membership collection drops rows of the subquery result (`if {unparse(g.ifs[0])}`): '
-                 f'a subquery whose rows are all dropped is then mistaken for one that returned no row (NULL instead of FALSE/TRUE)',
-                 loc(call, c))
-    if unparse(c.elt) != f'{unparse(g.target)}[0]':
-        res.fail(call.fq, 'subq1d:column', f'membership is tested against the single output column (row[0]); found `{unparse(c.elt)}`', loc(call, c))
-    # empty result -> NULL; cached on the node (one evaluation per compiled statement)
-    src = unparse(call.node)
-    stores = [n for n in ast.walk(call.node) if isinstance(n, ast.Assign) and unparse(n.targets[0]) == 'self.value']
-    if len(stores) != 1 or not isinstance(stores[0].value, ast.IfExp) or not is_none(stores[0].value.orelse):
-        res.fail(call.fq, 'subq1d:empty', 'a subquery returning no row makes IN / NOT IN NULL: value if value else None', loc(call))
-    if 'self.value is MARKER' not in src:
-        res.info('caching shape not recognised (not judged)')
-    if len(res.findings) == n0:
-        res.ok({'node': ci.fq, 'membership_in': 'row[0] of every result row', 'empty': 'NULL', 'cached': 'on the node instance'})
-    return res
 
 
 # ----------------------------------------------------------------------
